@@ -734,6 +734,9 @@ func TestC03_PlanSwitch(t *testing.T) {
 		}
 		pattern := rapid.SampledFrom([]string{"alternate", "alternate-ba", "random", "blocks", "a-only"}).Draw(t, "pattern")
 		extraLines := rapid.IntRange(0, 2).Draw(t, "extraHeaderLines") == 0
+		// clients that send no identifying header at all are one more source (the empty token),
+		// limited like any other
+		anonymous := rapid.IntRange(0, 3).Draw(t, "anonymousSource") == 0
 		gaps := []time.Duration{0, time.Millisecond, 7 * time.Millisecond, 50 * time.Millisecond, 100 * time.Millisecond, 333 * time.Millisecond, time.Second,
 			planA[0].Tau(), planB[0].Tau(), planA[0].Tau() / 2, planB[0].Tau() / 2, planA[0].Tau() - 1, planB[0].Tau() + 1}
 		n := rapid.IntRange(20, 500).Draw(t, "requests")
@@ -762,8 +765,10 @@ func TestC03_PlanSwitch(t *testing.T) {
 			}
 			last = plan
 			req := httptest.NewRequest("GET", "http://x/", nil)
-			req.Header.Set("X-Key", "key-1")
-			if extraLines && rapid.Bool().Draw(t, "addLine") {
+			if !anonymous {
+				req.Header.Set("X-Key", "key-1")
+			}
+			if !anonymous && extraLines && rapid.Bool().Draw(t, "addLine") {
 				req.Header.Add("X-Key", "trace-"+strconv.Itoa(i))
 				lines++
 			}
@@ -795,7 +800,10 @@ func TestC03_PlanSwitch(t *testing.T) {
 		if lines > 0 {
 			cl = append(cl, "extra-lines-of-the-source-header")
 		}
-		vstat.Case(fmt.Sprintf("switch|%v|%v|%s|%d|%v|%d", planA, planB, pattern, n, gap, lines), rejected > 0 && len(events) > 1 && (switches > 0 || lines > 0), cl,
+		if anonymous {
+			cl = append(cl, "source-without-identifying-header")
+		}
+		vstat.Case(fmt.Sprintf("switch|%v|%v|%s|%d|%v|%d|%v", planA, planB, pattern, n, gap, lines, anonymous), rejected > 0 && len(events) > 1 && (switches > 0 || lines > 0 || anonymous), cl,
 			map[string]any{"planA": fmt.Sprint(planA), "planB": fmt.Sprint(planB), "pattern": pattern, "requests": n, "admitted": len(events), "switches": switches, "extraHeaderLines": lines})
 	})
 }
